@@ -483,7 +483,8 @@ ssize_t readlink(const char *path, char *buf, size_t len) {
     if (meta_fault("readlink", rel, &seq)) return -1;
     ssize_t ret = raw(SYS_readlinkat, AT_FDCWD, (long)path, (long)buf, (long)len);
     int e = errno;
-    logev(seq, "readlink", -1, rel, (long)len, ret, ret < 0 ? e : 0, 0);
+    /* (the length of an absolute link target depends on where the sandbox lives: not logged) */
+    logev(seq, "readlink", -1, rel, (long)len, ret < 0 ? ret : 0, ret < 0 ? e : 0, 0);
     errno = e;
     return ret;
 }
@@ -496,7 +497,7 @@ char *getcwd(char *buf, size_t size) {
     if (!out) { if (size == 0) size = PATH_MAX; out = malloc(size); if (!out) { errno = ENOMEM; return NULL; } }
     long r = raw(SYS_getcwd, (long)out, (long)size, 0, 0);
     int e = errno;
-    logev(seq, "getcwd", -1, "-", (long)size, r, r < 0 ? e : 0, 0);
+    logev(seq, "getcwd", -1, "-", (long)size, r < 0 ? r : 0, r < 0 ? e : 0, 0);  /* (not the length: it depends on where the sandbox lives) */
     if (r < 0) { if (!buf) free(out); errno = e; return NULL; }
     return out;
 }
